@@ -39,6 +39,7 @@ Sym == [
   D2 |-> IStream(TData, Own, 2, 0),   D0 |-> IStream(TData, Own, 0, 7),
   GV |-> IGetValues(0, << [size |-> 16, var |-> 1] >>, 0, 0),
   GX |-> IGetValues(0, << [size |-> 4, var |-> 0], [size |-> 17, var |-> 4] >>, 1, 1),
+  U0 |-> IRaw(1, 201, 0, 0, 0),                                   \* unknown type, empty body (menu replies3)
   GH |-> IGetValues(0, << [size |-> 4, var |-> 0] >>, 8, 0),      \* 8 trailing bytes that read like a record header
   UK |-> IRaw(1, 200, 5, 1, 0),       PS |-> IParams(Own, 2, 0),
   FB |-> IBegin(Other, 1, 0, 0),      OB |-> IBegin(Own, 1, 1, 0),
@@ -74,6 +75,8 @@ WireSet ==
                                        } ELSE {})
   \cup (IF "replies2" \in Menu THEN ({ W(1, << a, b >>, 0, 0, "replies2") : a \in {"GV", "GX"}, b \in {"GV", "GX", "UK", "FB", "OB"} }
                                          \cup { W(1, << a, "GV" >>, 0, 0, "replies2") : a \in {"UK", "FB", "OB"} }) ELSE {})
+  \* many replies pending at once (more than one GetValuesResult's worth of bytes), drained by partial consume_output calls
+  \cup (IF "replies3" \in Menu THEN { W(1, [i \in 1..n |-> "U0"], 0, 0, "replies3") : n \in {7, 9} } ELSE {})
   \cup (IF "auth" \in Menu THEN { W(2, s, 0, 0, "auth") : s \in Typical } ELSE {})
   \cup (IF "trunc" \in Menu THEN { W(3, << "S3", "GV", "S0", "D2", "D0" >>, 0, c, "trunc") : c \in 0..40 } ELSE {})
 WSeq == TLCEval(SetToSeq(WireSet))
@@ -158,7 +161,7 @@ Next ==
           /\ DoParse(n, d)
   \/ "cs" \in Ops /\ \E k \in {1, 64} : ConsumeStream(k)
   \/ "c" \in Ops /\ Compress
-  \/ "co" \in Ops /\ \E k \in {1, 200} : ConsumeOutput(k)
+  \/ "co" \in Ops /\ \E k \in (IF "replies3" \in Menu THEN {50, 60, 200} ELSE {1, 200}) : ConsumeOutput(k)
   \/ "ss" \in Ops /\ \E s \in {TStdin, TData, NoStream} : ~LastIs("SS") /\ SetStream(s)
 
 Spec == Init /\ [][Next]_vars
